@@ -221,6 +221,27 @@ def main(run):
                 run.violation("symmetrize_force_constants", "output-not-invariant",
                               "perm err %.3g, sum-rule err %.3g" % (perm_err, sum_err), dict(n=n, level=level, fc=fc0.tolist()))
             run.count("oracle-full-projection", section="oracle")
+        # description invariance on the implementation (theorems fullSym_relabel_invariant / fullSym_frame_invariant):
+        # relabelled atoms and a changed Cartesian frame (a general, also left-handed, matrix with entries k/4)
+        if n >= 2 and c % 3 == 0:
+            sig = list(range(n))
+            rng.shuffle(sig)
+            sig = np.array(sig)
+            rel = fc0[np.ix_(sig, sig)].copy()
+            F.symmetrize_force_constants(rel, level=level)
+            if not _close(rel, fc_c[np.ix_(sig, sig)]):
+                run.violation("symmetrize_force_constants", "relabelling-not-invariant",
+                              "symmetrising the array with relabelled atoms differs from relabelling the symmetrised array by %.3g" % np.abs(rel - fc_c[np.ix_(sig, sig)]).max(),
+                              dict(n=n, level=level, permutation=sig.tolist(), fc=fc0.tolist()))
+            Cm = np.array([[rng.randint(-4, 4) / 4 for _ in range(3)] for _ in range(3)])
+            con = np.einsum("ka,ijab,lb->ijkl", Cm, fc0, Cm)
+            ref_con = np.einsum("ka,ijab,lb->ijkl", Cm, fc_c, Cm)
+            F.symmetrize_force_constants(con, level=level)
+            if not _close(con, ref_con, max(1.0, float(np.abs(ref_con).max()), float(np.abs(fc0).max()))):
+                run.violation("symmetrize_force_constants", "frame-not-invariant",
+                              "symmetrising C.Phi.C^T differs from C.(symmetrised Phi).C^T by %.3g (det C = %.3g)" % (np.abs(con - ref_con).max(), np.linalg.det(Cm)),
+                              dict(n=n, level=level, C=Cm.tolist(), fc=fc0.tolist()))
+            run.count("oracle-description-invariance", section="oracle")
 
     # ---------------- compact layout
     names = ["sc", "cscl", "nacl_prim", "bcc", "hcp", "zincblende_prim", "triclinic", "bct", "fcc"]
@@ -229,19 +250,27 @@ def main(run):
     ccases = 250 if thorough else 30
     made = 0
     attempts = 0
+    fcell = ["triclinic", "cscl", "sc", "bct"][run.seed % 4]
+    forced = [(fcell, np.diag([2, 2, 1]).tolist()), (fcell, np.diag([4, 1, 1]).tolist()), (fcell, np.diag([1, 4, 1]).tolist()), (fcell, np.diag([1, 2, 2]).tolist())]
     while made < ccases and attempts < 10 * ccases:
         attempts += 1
         name = rng.choice(names)
         cell, cen = gen.make_cell(name)
         smat = rng.choice(gen.supercell_matrices(rng, max_det=4 if not thorough else 8, count=12))
+        if forced:
+            # fixed pairs first: the same cell in supercells with the same atom count and s2p_map but DIFFERENT groups
+            # of pure translations, one after the other in one process (a table cached too coarsely shows here)
+            name, sm_ = forced.pop(0)
+            cell, cen = gen.make_cell(name)
+            smat = np.array(sm_)
         if len(cell) * int(round(np.linalg.det(smat))) > (24 if not thorough else 64):
             continue
         pm = rng.choice(["auto", "P"]) if cen != "P" else "P"
         # the same crystal in another description (left-handed / sheared / permuted basis): every second run of the
         # stream starts with a left-handed one; the oracles below are evaluated ON that description
         relabel = None
-        if made == 1 or rng.random() < 0.25:
-            relabel = ["swap12", "negate3", "invert"][(run.seed + made) % 3] if made == 1 else rng.choice(sorted(gen.UNIMODULAR))
+        if made == 4 or (made > 4 and rng.random() < 0.25):
+            relabel = ["swap12", "negate3", "invert"][(run.seed + made) % 3] if made == 4 else rng.choice(sorted(gen.UNIMODULAR))
             cell, _qmap, _smap = gen.relabelled_cell(cell, gen.UNIMODULAR[relabel])
             smat = _smap(smat)
             name = "%s[%s]" % (name, relabel)
